@@ -36,9 +36,10 @@ class C04(Prop):
             "must agree per prefix, and attaching an attached prefix must be refused leaving the map unchanged. "
             "non-trivial = >= 2 explicit edits of different kinds, nested prefixes present, >= 1 absent/partial query.")
     MODES = ("url", "url", "mixed")
-    LONG_BIAS = 0.15
+    LONG_BIAS = 0.3
+    BACKENDS = ("file", "file", "memory")
     WEIGHTS = {"page": 3, "pages": 1, "links": 1, "batch": 1, "again": 0, "create": 5, "delete": 3, "addprefix": 4,
-               "rmprefix": 3, "move": 3, "rule": 1, "unrule": 1, "reopen": 1}
+               "rmprefix": 3, "move": 3, "rule": 1, "unrule": 1, "reopen": 1, "clear": 1}
     QUICK = (40, 20)
     THOROUGH = (200, 40)
     TECHNIQUE = ("stateful property-based testing (Hypothesis) against a ledger oracle; thorough tier adds coverage-guided "
